@@ -542,7 +542,7 @@ def snap_ind(i):
 def snap_server(s):
     return {'id': s.id_number, 'cust': iid(s.cust), 'busy': 1 if s.busy else 0, 'offduty': 1 if s.offduty else 0,
             'start': tk(s.start_date), 'busy_time': tk(s.busy_time), 'total_time': tk(s.total_time),
-            'shift_end': tk(s.shift_end), 'next_end': tk(s.next_end_service_date)}
+            'shift_end': tk(s.shift_end), 'next_end': tk(s.next_end_service_date), 'wrapped': tk(getattr(s, 'wrapped_up_busy_time', 0))}
 
 
 def snap_node(n):
